@@ -131,6 +131,9 @@ def generate(run_seed, tier):
         fams = list(W.FAMILIES)
         rw.shuffle(fams)
         fams = fams[: rw.randint(8, len(fams))]
+        if rw.random() < 0.5:
+            # wider operator coverage (where/mask, loc, nlargest, accessors, melt, combine_first, ...)
+            fams += rw.sample(list(W.EXTENDED_FAMILIES), rw.randint(2, len(W.EXTENDED_FAMILIES)))
         refw = reference_world()
 
         def ref_compute(coll):
